@@ -5,6 +5,8 @@ import (
 	"encoding/json"
 	"fmt"
 	cid "github.com/ipfs/go-cid"
+	cbornode "github.com/ipfs/go-ipld-cbor"
+	mh "github.com/multiformats/go-multihash"
 	"math/rand"
 	"os"
 	"strings"
@@ -269,6 +271,7 @@ func wireCmd(args []string) int {
 				env.w.Take(m.ID)
 			}
 			nvalid := 0
+			var linkedHead *entry.Entry
 			for si, st := range b.Steps {
 				switch st.Action {
 				case "Init":
@@ -280,6 +283,34 @@ func wireCmd(args []string) int {
 					}
 					before := env.contents()
 					payload := malformed(cls, env.w1.Addr, real, seedHead, rng)
+					if cls == "head-links-to-malformed-block" {
+						// a well-formed head of the authorised writer whose link leads to a block that is the seed entry
+						// without its clock (or without the signatures of its identity)
+						raw, ok := env.wn.P.RawBlock(seedHead.GetHash())
+						var fields map[string]interface{}
+						if !ok || cbornode.DecodeInto(raw, &fields) != nil {
+							res.Inconclusive = append(res.Inconclusive, b.ID+": no block of the seed entry")
+							return
+						}
+						if rng.Intn(2) == 0 {
+							delete(fields, "clock")
+						} else if id, ok := fields["identity"].(map[string]interface{}); ok {
+							delete(id, "signatures")
+						}
+						nd, err := cbornode.WrapObject(fields, mh.SHA2_256, -1)
+						if err != nil {
+							res.Inconclusive = append(res.Inconclusive, b.ID+": "+err.Error())
+							return
+						}
+						env.wn.P.PutBlock(nd.Cid(), nd.RawData())
+						head, err := mkEntry(ctx, env.wn, env.wn.DB.Identity(), env.w1.Addr, []byte(`{"op":"PUT","key":"linked","value":"eA=="}`), []cid.Cid{nd.Cid()}, seedHead.GetClock().GetTime()+1)
+						if err != nil {
+							res.Inconclusive = append(res.Inconclusive, b.ID+": "+err.Error())
+							return
+						}
+						payload = headsMsg(env.w1.Addr, head)
+						linkedHead = head
+					}
 					mark("%s step %d: %s message of class %s: %q", b.ID, si, ch, cls, truncate(payload, 300))
 					env.sendTo(ch, env.w1.Addr, payload)
 					if err := sim.Settle(settleTimeout, env.rn); err != nil {
@@ -290,6 +321,15 @@ func wireCmd(args []string) int {
 					res.Stats["class_"+cls]++
 					// a mutated real message may happen to remain a valid announcement of the seed entry
 					after := env.contents()
+					if cls == "head-links-to-malformed-block" && linkedHead != nil {
+						// the head is a valid entry of the writer and may be merged on its own; the malformed block never is
+						for _, e := range env.r1.S.OpLog().GetEntries().Slice() {
+							if e.GetClock() == nil || e.GetIdentity() == nil || e.GetIdentity().Signatures == nil {
+								viol(si, "changed", "a block that is not a well-formed entry was merged")
+							}
+						}
+						after = before
+					}
 					if after != before {
 						_, ok := env.r1.S.OpLog().Get(seedHead.GetHash())
 						if !(ok && (cls == "mutated-real" || cls == "truncated-real" || cls == "head-null-among-valid" || cls == "address-missing" || cls == "address-unknown" || cls == "address-ill-typed") && env.r1.S.OpLog().Len() == 1 && env.r2.S.OpLog().Len() == 0) {
